@@ -39,6 +39,8 @@ DECL = {"u8": INT, "u16": INT, "u32": INT, "u64": INT, "i32": INT, "i64": INT, "
 # Not in the table because the engine does not claim them: refused as outside the subset (slices with a step, int.from_bytes / sorted /
 # tuple ordering on symbolic operands) or deliberately uninterpreted - sound but incomplete (hexlify/unhexlify, ordering of byte
 # strings, xor/and/or of two symbolic operands without known bits, crc32, hashes, inet_* text conversions, float formats).
+# Also refused (outside the subset): generator functions defined inside functions, late-binding lambdas inside comprehensions,
+# str.split on symbolic strings.
 # (expression, {variable: kind})
 CASES = [
     # struct, big endian / little endian / native
@@ -83,6 +85,9 @@ CASES = [
     ("h_remove_while_iterating(a, b, c)", {"a": "small", "b": "small", "c": "small"}), ("h_append_while_iterating(a, b)", {"a": "small", "b": "small"}),
     ("h_dict_changed(a, b)", {"a": "pos", "b": "pos"}), ("h_try_finally(a)", {"a": "small"}), ("h_default_arg(a)", {"a": "small"}),
     ("h_closure(a, b)", {"a": "small", "b": "small"}), ("h_while_break(a)", {"a": "pos"}),
+    ("h_classes(a)", {"a": "small"}), ("h_kwargs(a, b)", {"a": "small", "b": "small"}),
+    ("h_exceptions(a)", {"a": "small"}), ("h_containers(a, b)", {"a": "pos", "b": "pos"}), ("h_strings(a)", {"a": "pos"}),
+    ("h_scoping(a)", {"a": "small"}), ("h_loops(a)", {"a": "pos"}),
     # array (host byte order)
     ("array('q', [a]).tobytes()", {"a": "i64"}), ("array('B', [f, a]).tobytes()", {"f": "bool", "a": "u8"}),
 ]
@@ -152,7 +157,180 @@ def h_while_break(a):
     return n
 
 
-HELPERS = {f.__name__: f for f in (h_remove_while_iterating, h_append_while_iterating, h_dict_changed, h_try_finally, h_default_arg,
+class _Base:
+    shared = []          # class attribute: shared by all instances
+    kind = "base"
+
+    def __init__(self, v):
+        self.v = v
+
+    def who(self):
+        return self.kind + ":" + str(self.tag())
+
+    def tag(self):
+        return 1
+
+    @property
+    def double(self):
+        return self.v * 2
+
+    @double.setter
+    def double(self, x):
+        self.v = x // 2
+
+    @classmethod
+    def make(cls, v):
+        return cls(v + 1)
+
+    @staticmethod
+    def helper(x):
+        return x - 1
+
+
+class _Derived(_Base):
+    kind = "derived"
+
+    def __init__(self, v):
+        super().__init__(v * 10)
+        self.own = []
+
+    def tag(self):
+        return super().tag() + 1
+
+
+def h_classes(a):
+    b, d = _Base(a), _Derived(a)
+    b.shared.append(a)
+    d.own.append(a)
+    d2 = _Derived.make(a)
+    d.double = 9
+    return (b.who(), d.who(), d2.v, d.v, b.double, _Base.helper(a), len(d2.own), d.shared is b.shared, isinstance(d, _Base),
+            type(d2).__name__, hasattr(d, "own"), getattr(b, "missing", -1))
+
+
+def h_class_attr_reset(a):
+    x = _Base(a)
+    n = len(x.shared)
+    x.shared.append(1)
+    return n               # module state is fresh on every path of the verifier; CPython sees earlier appends -> pinned to first call
+
+
+def h_generators(a, b):
+    def gen(n):
+        i = 0
+        while i < n:
+            yield i * a
+            i += 1
+    return list(gen(3)), sum(x for x in gen(b % 4)), [x for x in gen(2) if x], next(gen(5)), list(zip(gen(3), "ab")), dict(enumerate(gen(2)))
+
+
+def h_kwargs(a, b):
+    def f(x, *rest, y=5, **kw):
+        return (x, rest, y, sorted(kw.items()))
+    return f(a), f(a, b), f(a, b, 3, y=b), f(x=a, z=b), f(*[a, b], **{"y": 1, "w": 2})
+
+
+def h_exceptions(a):
+    log = []
+
+    def inner(x):
+        try:
+            if x == 0:
+                raise KeyError("k")
+            if x == 1:
+                return "ret"
+            log.append("fallthrough")
+        finally:
+            log.append("fin" + str(x))
+        return "end"
+    out = []
+    for v in (0, 1, 2):
+        try:
+            out.append(inner(v))
+        except KeyError as e:
+            out.append("caught " + str(e.args[0]))
+    try:
+        try:
+            raise ValueError("v")
+        except ValueError as e:
+            raise RuntimeError("r") from e
+    except (TypeError, RuntimeError) as e2:
+        out.append(type(e2).__name__)
+    return out, log, a
+
+
+def h_containers(a, b):
+    from collections import OrderedDict, defaultdict, deque
+    d = {}
+    d[b] = 1
+    d[a] = 2
+    d.setdefault(a, 9)
+    d.setdefault(a + 50, 7)
+    od = OrderedDict()
+    od[a] = "x"
+    od[b + 100] = "y"
+    od[a] = "z"
+    first = od.popitem(False)
+    dq = deque([1, 2, 3], maxlen=3)
+    dq.append(a)
+    dq.appendleft(b)
+    dd = defaultdict(list)
+    dd[a].append(1)
+    lst = [3, 1, 2]
+    lst.insert(1, a)
+    popped = lst.pop(0)
+    lst.extend([b, b])
+    s1 = {a, b, 3}
+    return (list(d.items()), first, list(od.items()), list(dq), dict(dd), lst, popped, lst.count(b), len(s1 | {4}), 3 in (s1 & {3, a}),
+            len(s1 - {3}), a in s1, list(reversed(lst)), lst[-1], lst[1:-1], min(lst), [*lst, a][:2])
+
+
+def h_strings(a):
+    s = "ab:" + str(a) + ":cd"
+    parts = "ab:7:cd".split(":")
+    return (parts, "-".join(parts), s.startswith("ab"), s.endswith("d"), len(s) > 5, "x" * 3, ":" in s, bytes([65, 66]).decode(), "é".encode(),
+            int("12") + a, list(b"\x01\x02"), bytes(2), b"ab".hex())
+
+
+def h_scoping(a):
+    acc = [(lambda q: q * 2)(k) for k in range(3)]
+    total = 0
+
+    def bump():
+        nonlocal total
+        total += a
+        return total
+    bump()
+    bump()
+    x = [i * j for i in range(3) for j in range(2) if i != j]
+    i = "outer"
+    y = [i for i in range(2)]
+    return acc, total, x, i, y, (lambda q=a: q + 1)()
+
+
+def h_loops(a):
+    out = []
+    for i in range(5):
+        if i == a % 7:
+            out.append("hit")
+            break
+        if i % 2:
+            continue
+        out.append(i)
+    else:
+        out.append("no-break")
+    n = 0
+    while n < 3:
+        n += 1
+    else:
+        out.append("while-else")
+    a1, *mid, z = [1, 2, 3, 4]
+    (p, q), r = (5, 6), 7
+    return out, n, a1, mid, z, p + q + r, 1 < a <= 10 != 3, not a or a, a and 0, None or a, [] or "dflt", bool([]), bool([0])
+
+
+HELPERS = {f.__name__: f for f in (h_classes, h_kwargs, h_exceptions, h_containers, h_strings, h_scoping, h_loops,
+                                   h_remove_while_iterating, h_append_while_iterating, h_dict_changed, h_try_finally, h_default_arg,
                                    h_closure, h_while_break)}
 
 
